@@ -240,3 +240,62 @@ X_SMALL_ORDER = [
     39382357235489614581723060781553021112529911719440698176882885853963445705823,
     P - 1,
 ]
+
+
+# ---------------------------------------------------------------------------- small-subgroup helpers
+def _ed_affine(pt):
+    X, Y, Z, _ = pt
+    zi = pow(Z, P - 2, P)
+    return X * zi % P, Y * zi % P
+
+
+def ed_torsion():
+    """the 8 points of order dividing 8 on edwards25519 (affine), found by cofactor-clearing a point"""
+    k = 3
+    while True:
+        # some curve point: y = k, solve x
+        y = k
+        x2 = (y * y - 1) * pow(D * y * y + 1, P - 2, P) % P
+        ok, x = sqrt_ratio_m1(x2, 1)
+        k += 1
+        if not ok:
+            continue
+        q = ed_mul(L, (x, y, 1, x * y % P))
+        pts = [IDENT]
+        cur = q
+        for _ in range(7):
+            pts.append(cur)
+            cur = ed_add(cur, q)
+        aff = {_ed_affine(t) for t in pts}
+        if len(aff) == 8:
+            return [(a, b, 1, a * b % P) for a, b in sorted(aff)]
+
+
+_TORSION = None
+
+
+def x_torsion_variants(u_bytes):
+    """u-coordinates of P + T for the non-trivial small-order points T, where u(P) = u_bytes (P on the curve).
+    These are DIFFERENT valid public keys that give the SAME X25519 output as P for every clamped scalar."""
+    global _TORSION
+    if _TORSION is None:
+        _TORSION = ed_torsion()
+    u = (int.from_bytes(u_bytes, "little") & ((1 << 255) - 1)) % P
+    if (u + 1) % P == 0:
+        return []
+    y = (u - 1) * pow(u + 1, P - 2, P) % P
+    x2 = (y * y - 1) * pow(D * y * y + 1, P - 2, P) % P
+    ok, x = sqrt_ratio_m1(x2, 1)
+    if not ok:
+        return []          # on the twist
+    base = (x, y, 1, x * y % P)
+    out = []
+    for t in _TORSION:
+        xr, yr = _ed_affine(ed_add(base, t))
+        if (1 - yr) % P == 0:
+            continue
+        ur = (1 + yr) * pow(1 - yr, P - 2, P) % P
+        b = ur.to_bytes(32, "little")
+        if b != u.to_bytes(32, "little") and b not in out:
+            out.append(b)
+    return out
